@@ -47,7 +47,7 @@ func runC11BucketDL(s C11BucketDL) pbt.Outcome {
 		e.r.G.GetByIndex(e.ctx, &hydrapb.GetByIndexRequest{IslandID: isl, SwampName: sn, IndexType: it, Limit: 1})
 	}
 	// the deleter holds the victim's guard and is held back just before it locks the key beacon
-	vsched.Activate([]vsched.Action{{Site: "beacon:Delete:2:Lock", Hit: 1, Kind: "pause", Until: "site:beacon:CloneUnorderedTreasures:3:StartTreasureGuard", MaxWaitMs: 1500}}, false)
+	vsched.Activate([]vsched.Action{{Site: "beacon:Delete:Lock:e380a5", Hit: 1, Kind: "pause", Until: "site:beacon:CloneUnorderedTreasures:StartTreasureGuard:3069de", MaxWaitMs: 1500}}, false)
 	f := (&Filt{Legs: []Leg{{Field: "status", Op: "eq", S: "ready"}, {Field: "n", Op: "ge", I: 0}}}).proto()
 	var wg sync.WaitGroup
 	wg.Add(2)
